@@ -34,6 +34,11 @@ inductive Out (β : Type) where
   | unit              -- no result
   deriving DecidableEq, Repr
 
+/-- a boolean answer (`Includes`) as an `Out` -/
+def boolOut {β : Type} : Bool → Out β
+  | true => .unit
+  | false => .none
+
 structure SH (β : Type) where
   entries : List (String × β)
   index : List (String × Nat)
@@ -125,7 +130,7 @@ def stepSH {β : Type} (h : SH β) : SOp β → SH β × Out β
   | .put k v => h.put k v
   | .delete k => h.delete k
   | .get k => (h, h.get k)
-  | .includes k => (h, if h.includes k then .unit else .none)
+  | .includes k => (h, boolOut (h.includes k))
   | .cia k v => h.computeIfAbsent k v
   | .copy => (h.copy, .unit)
   | .merge o => h.merge o
